@@ -486,11 +486,17 @@ def check(chk):
     lps = [x for x in ast.walk(ic.node) if isinstance(x, ast.While) and any(isinstance(c_, ast.Call) and call_attr(c_) == "_parse_msg" for c_ in ast.walk(x))]
     chk.need(lps, "DOM-29", "_identify_connection collects the initial input reports in a loop", ic)
     lp = lps[0]
-    outs = [x for b in lp.body for x in ast.walk(b) if isinstance(x, (ast.Break, ast.Return))]
-    gates = [x for b in lp.body for x in ast.walk(b) if isinstance(x, ast.If) and any(isinstance(y, (ast.Break, ast.Return)) for z in x.body + x.orelse for y in ast.walk(z))]
-    ok = len(outs) == 1 and len(gates) == 1 and src(lp.test) == "True" and canon_fact(src(gates[0].test), True) == canon_fact("cards <= 0", True)
+    from sa.cfg import canon_set as _cs14
+    from sa.helpers import positive as _pos14
+    icfg = ic.cfg()
+    body_ids = {id(x) for b in lp.body for x in ast.walk(b)}
+    outs = [n for n in icfg.nodes if n.kind == "stmt" and isinstance(n.ast, (ast.Break, ast.Return)) and id(n.ast) in body_ids]
+    heads14 = [n for n in icfg.nodes if n.ast is lp and n.kind in ("join", "loop", "test")]
+    base = set(_cs14(icfg.guards_at(heads14[0].id))) if heads14 else set()
+    gsets = [_pos14(set(_cs14(icfg.guards_at(n.id))) - base) - {("True", True)} for n in outs]
+    ok = len(outs) == 1 and src(lp.test) == "True" and gsets[0] == {canon_fact("cards <= 0", True)}
     chk.ob("DOM-29", "the start-up collection of input reports ends exactly when every card has answered (cards <= 0), whatever the chunks contain", ok,
-           ic.where(gates[0] if gates else lp), detail="left when %s" % [src(g_.test) for g_ in gates], construct=ic.ident, text="initial report loop exit")
+           ic.where(outs[0].ast if outs else lp), detail="left under %s" % [sorted(g) for g in gsets], construct=ic.ident, text="initial report loop exit")
     dec = [x for b in lp.body for x in ast.walk(b) if isinstance(x, ast.AugAssign) and src(x.target) == "cards"]
     ok = len(dec) == 1 and isinstance(dec[0].op, ast.Sub) and src(dec[0].value) == "self._parse_msg(resp)"
     chk.ob("DOM-29", "each chunk lowers the outstanding-card count by the number of reports parsed from it", ok, ic.where(lp), construct=ic.ident,
@@ -781,6 +787,7 @@ def _reaches_switch_update(repo, cls, m):
 def battery():
     from sa.battery import M
     return [
+        M("twin: start-up collection exit as a guard clause", OS_, "            if cards <= 0:\n                break\n            self.log.debug(\"Waiting for another %s cards\", cards)", "            if cards > 0:\n                self.log.debug(\"Waiting for another %s cards\", cards)\n                continue\n            break", None),
         M("a lone delimiter byte ends the start-up collection", OS_, "            if cards <= 0:\n                break", "            if cards <= 0 or resp == OppRs232Intf.EOM_CMD:\n                break", "DOM-29"),
         M("PKONE dispatches the raw chunk instead of the frame", "mpf/platforms/pkone/pkone_serial_communicator.py", "            msg = self.received_msg[:pos]\n", "            frame = self.received_msg[:pos]\n", "PAIR-15",
           also=[("mpf/platforms/pkone/pkone_serial_communicator.py", "            if not msg:\n                continue\n\n            if msg.decode() not in self.ignored_messages:", "            if not frame:\n                continue\n\n            if frame.decode() not in self.ignored_messages:")]),
